@@ -42,6 +42,10 @@ Per program, inputs are enumerated deviation-bounded (<= 2 dimensions off defaul
 dispersity on each of the first three volume call parameters (gaussian/uniform, 2..5 points, one
 alternative truncated by the lower limit), cutoff 0 / 0.05, 1-D / 2-D q, effective-radius mode.
 
+In addition, for every program with >= 2 volume call parameters, a FULL product of inputs: two (and three)
+simultaneously dispersed parameters with different point counts in both loop orders x cutoff in
+{1e-5, 0.02, 0.05, exactly one product weight}, all three flavours.
+
 Oracle: three-way.  The definition's expression trees are evaluated directly with numpy at every mesh
 point (weights from weights.get_weights, decided separately by C02) and combined by the C01 reference
 mean (plugin_gen.mean_from_points); the C build and the Python build (vectorised and non-vectorised Iq)
@@ -303,6 +307,30 @@ def input_dims(spec, ctx):
     return dims
 
 
+PRODUCT_CUTOFFS = [1e-5, 0.02, 0.05, "eq"]
+
+
+def product_inputs(spec):
+    """
+    FULL product (not deviation-bounded) of: two / three simultaneously dispersed volume call parameters with
+    different point counts in both loop orders  x  cutoff in {1e-5, 0.02, 0.05, exactly one product weight}.
+    """
+    vol = [nm for nm, p in G.call_names(spec) if p["type"] == "volume"]
+    out = []
+    g3, g5, u2 = ["gaussian", 3, 0.2], ["gaussian", 5, 0.15], ["uniform", 2, 0.3]
+    if len(vol) >= 2:
+        for a, b in ((g3, g5), (g5, g3)):
+            for c in PRODUCT_CUTOFFS:
+                out.append({"nominal": False, "q": "1d", "cutoff": c, "product": True,
+                            "pd:" + vol[0]: a, "pd:" + vol[1]: b})
+    if len(vol) >= 3:
+        for a, b, c3 in ((g3, g5, u2), (u2, g3, g5)):
+            for c in PRODUCT_CUTOFFS[:3]:
+                out.append({"nominal": False, "q": "1d", "cutoff": c, "product": True,
+                            "pd:" + vol[0]: a, "pd:" + vol[1]: b, "pd:" + vol[2]: c3})
+    return out
+
+
 def nominal_values(spec, ctx, off):
     vals = {}
     for k, (nm, p) in enumerate(G.call_names(spec)):
@@ -397,7 +425,8 @@ def _run_pair(case, ctx):
         for tag in models:
             kernels[tag, dim] = models[tag].make_kernel(qv)
     declared = spec.get("reff") is not None
-    for ndev, cfg in deviations(input_dims(spec, ctx), 2):
+    configs = list(deviations(input_dims(spec, ctx), 2)) + [(1, c) for c in product_inputs(spec)]
+    for ndev, cfg in configs:
         dim = cfg["q"]
         mode = cfg.get("mode", 0) if declared else 0
         vals = nominal_values(spec, ctx, cfg["nominal"])
@@ -413,6 +442,11 @@ def _run_pair(case, ctx):
                 disp[nm] = (x, wt)
                 truncated |= len(x) < n
         cutoff = cfg["cutoff"]
+        if cutoff == "eq":
+            # exactly the product weight of (first point of the first parameter, heaviest point of the second); a
+            # product of two factors is the same double in every multiplication order
+            (_, w1), (_, w2) = [disp[k[3:]] for k in cfg if k.startswith("pd:")][:2]
+            cutoff = float(w1[0] * w2.max()) if len(w1) and len(w2) else 0.0
         q = np.array(Q1) if dim == "1d" else np.array(Q2)
         ref = G.mean_from_points(lambda pt: G.point_eval(spec, pt, q, mode, dim), len(q),
                                  dict(vals, scale=SCALE, background=BACKGROUND), disp, cutoff)
@@ -429,6 +463,18 @@ def _run_pair(case, ctx):
             br.append("truncated")
         if len(disp) >= 2:
             br.append("two-dispersed")
+        if cfg.get("product"):
+            br.append("product-input:%d-dispersed" % len(disp))
+            # mesh points the cutoff drops although the weight of the innermost (longest, fastest-varying) loop
+            # alone exceeds the cutoff: the test must be made on the PRODUCT of the weights
+            ws = sorted((wt for _, wt in disp.values()), key=len)
+            if ws and len(ws[-1]) > len(ws[-2]):
+                inner = ws[-1]
+                ndrop = sum(1 for combo in itertools.product(*[range(len(w)) for w in ws])
+                            if not (float(np.prod([w[i] for w, i in zip(ws, combo)])) > cutoff)
+                            and inner[combo[-1]] > cutoff)
+                if ndrop:
+                    br.append("cutoff-dropped-point-whose-inner-weight-exceeds-cutoff")
         if any(nm[-1].isdigit() and nm[:-1] in [p["name"] for p in spec["pars"] if p.get("length") is not None]
                for nm in disp):
             br.append("dispersed-vector-element")
@@ -1001,6 +1047,10 @@ def finish(ctx, report):
         report.require("cutoff-excluded", 100, "cutoff excluded >= 1 mesh point")
         report.require("truncated", 100, "distribution truncated by the limits")
         report.require("two-dispersed", 100, "two simultaneously dispersed parameters")
+        report.require("product-input:2-dispersed", 400, "two dispersed parameters x cutoff (full product)")
+        report.require("product-input:3-dispersed", 60, "three dispersed parameters x cutoff (full product)")
+        report.require("cutoff-dropped-point-whose-inner-weight-exceeds-cutoff", 300,
+                       "cutoff dropped a point whose inner weight alone exceeds the cutoff")
         report.require("dispersed-vector-element", 20, "dispersity on an element of a vector parameter")
         report.require("dim:2d", 100, "2-D q")
         report.require("reff-mode", 50, "effective-radius modes")
